@@ -201,17 +201,19 @@ impl Segment3D {
 
         // Check for intersection.
         const TINY: Float = 1e-5;
-        let (t_a, t_b) = if normal.z.abs() > TINY {
+        // project along the dominant component of the normal (the best conditioned projection)
+        let (nx, ny, nz) = (normal.x.abs(), normal.y.abs(), normal.z.abs());
+        let (t_a, t_b) = if nz > TINY && nz >= nx && nz >= ny {
             let det = a.y * b.x - a.x * b.y;
             let t_a = (b.y * delta.x - b.x * delta.y) / det;
             let t_b = (a.y * delta.x - a.x * delta.y) / det;
             (t_a, t_b)
-        } else if normal.x.abs() > TINY {
+        } else if nx > TINY && nx >= ny {
             let det = a.y * b.z - a.z * b.y;
             let t_a = (b.y * delta.z - b.z * delta.y) / det;
             let t_b = (a.y * delta.z - a.z * delta.y) / det;
             (t_a, t_b)
-        } else if normal.y.abs() > TINY {
+        } else if ny > TINY {
             let det = a.x * b.z - a.z * b.x;
             let t_a = (b.x * delta.z - b.z * delta.x) / det;
             let t_b = (a.x * delta.z - a.z * delta.x) / det;
